@@ -396,6 +396,12 @@ async fn scenario(store: Store, plan: &[Dev], dir: std::path::PathBuf) -> Result
     for phase in 0..PHASES {
         obs.phase_start_seq.push(net.lock().unwrap().seq);
         for d in plan.iter().filter(|d| d.phase() == Some(phase)) {
+            // a crash of a node that is already down is not a deviation (nothing happens)
+            if let Dev::CrashRestart { node, .. } | Dev::CrashDown { node, .. } = d {
+                if !c.live().iter().any(|(id, _)| id == node) {
+                    continue;
+                }
+            }
             obs.deviations_reached += 1;
             match d {
                 Dev::Isolate { node, .. } => {
@@ -457,7 +463,9 @@ async fn scenario(store: Store, plan: &[Dev], dir: std::path::PathBuf) -> Result
         n.drop_reply.clear();
     }
     for id in down_until_heal {
-        c.start_node(id).await?;
+        if !c.live().iter().any(|(l, _)| *l == id) {
+            c.start_node(id).await?;
+        }
     }
     c.settle().await?;
     obs.points.push(c.observe());
@@ -658,6 +666,7 @@ pub fn run(args: &Args) -> ! {
                     Ok(o) => o,
                     Err(e) => {
                         acc.count("executions_aborted", 1);
+                        eprintln!("ABORTED execution: plan {} on {}: {e}", plan_json(store, plan)["plan"], store.name());
                         acc.viol.add(format!("C37:harness:{}:execution_aborted", store.name()), format!("execution could not be completed: {e}"), plan_json(store, plan), plan.len());
                         return true;
                     }
